@@ -224,7 +224,10 @@ def write_hash_list(hash_list: MHLHashList, file_path: str):
     if not os.path.isdir(directory_path):
         os.mkdir(directory_path)
 
-    file = open(file_path, "wb")
+    # write into a temporary file and move it to its final name when it is complete, so that an interrupted
+    # run never leaves a partial manifest behind that breaks loading the history
+    temp_file_path = file_path + ".tmp"
+    file = open(temp_file_path, "wb")
     file.write(b'<?xml version="1.0" encoding="UTF-8"?>\n<hashlist version="2.0" xmlns="urn:ASC:MHL:v2.0">\n')
     current_indent = "  "
 
@@ -263,6 +266,7 @@ def write_hash_list(hash_list: MHLHashList, file_path: str):
     _write_xml_string_to_file(file, "</hashlist>\n", current_indent)
     file.flush()
     file.close()
+    os.replace(temp_file_path, file_path)
 
 
 def _write_xml_element_to_file(file, xml_element, indent: str):
